@@ -31,9 +31,10 @@ COMPONENTS = {
     "stub": ["CAN backend (SimBus)", "can.Notifier", "time/queue inside canopen.lss (virtual clock, SimQueue)", "LSS slave (RefLssSlave reference model)"],
 }
 PROBES = ["scan-found", "scan-no-slave", "bit31-set", "inquire", "configure-ok", "configure-error", "wrong-cs", "silence", "late-reply", "selective", "store",
-          "unsolicited-reply-before-scan", "second-scan-same-master"]
+          "unsolicited-reply-before-scan", "second-scan-same-master", "slow-reply-inside-timeout"]
 # probes that mark an injected disturbance; the runner also counts them as fired faults in the evidence
-FAULT_PROBES = {'configure-error': 'lss-error-reply',
+FAULT_PROBES = {'slow-reply-inside-timeout': 'lss-slow-reply-inside-timeout',
+ 'configure-error': 'lss-error-reply',
  'late-reply': 'lss-late-reply',
  'silence': 'lss-reply-lost',
  'unsolicited-reply-before-scan': 'lss-unsolicited-reply',
@@ -98,7 +99,13 @@ def _monitor(ctx, w, what):
 
 
 def _scan(ctx, w, identity, kind):
+    if w.slave is not None and kind == 4 and ctx.choice(4, "slowprobe") == 1:
+        # the device is busy once during the scan: one of its answers takes 60..440 ms instead of microseconds,
+        # which is still inside the master's 0.5 s response time-out (a conformant slave may take that long)
+        w.slave.slow_reply = [1 + ctx.choice(70, "slowat"), (60, 150, 300, 440)[ctx.choice(4, "slowby")] * MS]
     res, exc = call(w.lss.fast_scan)
+    if w.slave is not None:
+        w.slave.slow_reply = None
     what = "fast_scan() with %s" % ("no slave" if w.slave is None else "slave identity %s" % ["0x%08X" % x for x in identity])
     if exc is not None:
         ctx.violation("C18/fast-scan-raised/%s@%s" % (type(exc).__name__, site(exc)), "%s raised %r" % (what, exc))
